@@ -194,9 +194,19 @@ func checkCrash(res *RunResult, prop string) *Eval {
 				variants = tailCutImages(img, &rng, 16)
 			}
 			wantNested := depth < c.Crash.Depth && (nestedPick[ii] || len(c.Crash.Only) > depth)
+			// the recovery whose own crash points are enumerated next: the plain image,
+			// or (two times in three, when tails are cut) one of its cut variants - a
+			// recovery that starts from a torn file and is itself interrupted
+			nestedVar := 0
+			if wantNested && len(variants) > 1 && rng.Intn(3) > 0 {
+				nestedVar = 1 + rng.Intn(len(variants)-1)
+			}
+			if len(c.Crash.Only) > depth && c.Crash.OnlyCut != nil && depth-1 < len(c.Crash.OnlyCut) {
+				nestedVar = c.Crash.OnlyCut[depth-1]
+			}
 			for vi, v := range variants {
 				seed := mixSeed(c.Seed, 7919*len(img.Path)+img.Path[len(img.Path)-1]*31+vi)
-				rr := RecoverImage(curT, c, v, seed, wantNested && vi == 0)
+				rr := RecoverImage(curT, c, v, seed, wantNested && vi == nestedVar)
 				ev.Evaluations++
 				ev.AuxHash = (ev.AuxHash ^ rr.Sim.Hash) * 0x100000001b3
 				if rr.Sim.Leaked > 0 {
@@ -248,7 +258,7 @@ func checkCrash(res *RunResult, prop string) *Eval {
 					x.Seq = img.Path[0]
 					ev.Mine = append(ev.Mine, x)
 				}
-				if wantNested && vi == 0 && len(rr.Nested) > 0 {
+				if wantNested && vi == nestedVar && len(rr.Nested) > 0 {
 					recoverAll(rr.Nested, depth+1)
 				}
 			}
